@@ -37,6 +37,12 @@ func genSimpleSet(r *RNG, S float64) clip.Paths64 {
 
 // as genSimpleSet, also returning the index at which the second island (a valid group of its own) starts
 func genSimpleSetGroups(r *RNG, S float64) (clip.Paths64, int) {
+	ps, split, _ := genSimpleSetGroupsSign(r, S)
+	return ps, split
+}
+
+// ... and the global orientation: +1 when outer boundaries are positively oriented (Area64), -1 otherwise
+func genSimpleSetGroupsSign(r *RNG, S float64) (clip.Paths64, int, int) {
 	var ps clip.Paths64
 	split := 0
 	n := 1 + r.Intn(2)
@@ -47,19 +53,26 @@ func genSimpleSetGroups(r *RNG, S float64) (clip.Paths64, int) {
 		if k == 1 {
 			split = len(ps)
 		}
-		ps = append(ps, outer)
 		if r.Intn(2) == 0 && nv >= 6 {
 			// with >= 6 vertices at radius >= 0.55 S every edge stays farther than 0.3 S from the centre
 			hole := genStarShaped(r, cx, cy, 0.12*S, 0.24*S, 3+r.Intn(5))
-			ps = append(ps, clip.ReversePath(hole))
+			if r.Intn(3) == 0 { // the hole may be listed before its outer boundary
+				ps = append(ps, clip.ReversePath(hole), outer)
+			} else {
+				ps = append(ps, outer, clip.ReversePath(hole))
+			}
+		} else {
+			ps = append(ps, outer)
 		}
 	}
+	sign := 1
 	if r.Intn(3) == 0 { // either global orientation
 		for i := range ps {
 			ps[i] = clip.ReversePath(ps[i])
 		}
+		sign = -1
 	}
-	return ps, split
+	return ps, split, sign
 }
 
 // positively oriented quadrilateral a, b, b+v, a+v (v given as float, rounded to the lattice)
@@ -122,7 +135,7 @@ func cmdC05(r *RNG, n int, e *Emitter, args []string) {
 	for i := 0; i < n; i++ {
 		takeDiscards()
 		S := []float64{40, 80, 200, 1000}[r.Intn(4)]
-		in, split := genSimpleSetGroups(r, S)
+		in, split, sign := genSimpleSetGroupsSign(r, S)
 		jt := clip.JoinType(r.Intn(4))
 		miter := []float64{1, 2, 2, 3, 5}[r.Intn(5)]
 		arct := []float64{0, 0, 0.25, 1, 3}[r.Intn(5)]
@@ -181,11 +194,7 @@ func cmdC05(r *RNG, n int, e *Emitter, args []string) {
 			e.Count("tiny-delta")
 			continue
 		}
-		// the group orientation of the first group decides the orientation of the result
-		sign := 1
-		if clip.Area64(in0[0]) < 0 {
-			sign = -1
-		}
+		// the orientation of the outer boundaries decides the orientation of the result
 		ad := math.Abs(delta)
 		tol := 2 + math.Max(arct, 0.002*ad)
 		k := joinK(jt, miter)
